@@ -95,7 +95,7 @@ class SymCtx:
         if isinstance(n, V.SymInt):
             # witnesses (path models, counterexamples) with a small length when the path allows one: the native runs materialise the bytes
             def small(eng, n=n):
-                for bound in (4096, 1 << 17, 1 << 20, 1 << 22):  # the smallest class that the path (or the violation) allows
+                for bound in (4096, 1 << 17, 1 << 20, 1 << 22, 1 << 25):  # the smallest class that the path (or the violation) allows
                     q = n <= bound
                     eng.prefer(q.t if isinstance(q, V.SymBool) else None)
 
@@ -181,13 +181,9 @@ class NativeCtx:
         return self.blob_of_len(name, n), n
 
     def blob_of_len(self, name, n):
-        if n > 1 << 22:
+        if n > (1 << 25 if getattr(self, "big", False) else 1 << 22):  # 32 MiB when a counterexample is replayed, 4 MiB for the per-path cross-check
             raise NativeAssumeFailed(f"a byte string of {n} bytes is not materialised natively")
-        out, i = b"", 0
-        while len(out) < n:
-            out += hashlib.sha256(f"{name}/{i}".encode()).digest()
-            i += 1
-        return out[:n]
+        return hashlib.shake_256(name.encode()).digest(n) if n else b""
 
     def assume(self, cond):
         if not cond:
@@ -366,10 +362,11 @@ class ModuleState:
                     pass
 
 
-def run_native(h: Harness, params, inputs, step_limit=None, measure=False):
+def run_native(h: Harness, params, inputs, step_limit=None, measure=False, big=False):
     """run the harness natively on concrete inputs; returns NativeOutcome(kind in return/raise/budget/assume/checkfail)"""
     ModuleState.restore()
     ctx = NativeCtx(inputs, step_limit or h.native_step_limit)
+    ctx.big = big
     old = sys.gettrace()
     prev_engine = Engine.current
     Engine.current = None
@@ -391,6 +388,10 @@ def run_native(h: Harness, params, inputs, step_limit=None, measure=False):
             old_handler = signal.signal(signal.SIGALRM, _alarm)
             signal.setitimer(signal.ITIMER_REAL, getattr(h, "native_wall_limit", 30.0))
         sys.settrace(_tracer_factory(ctx))
+        old_limit = sys.getrecursionlimit()
+        import inspect as _inspect
+
+        sys.setrecursionlimit(len(_inspect.stack(0)) + 1000)  # the library runs under CPython's default limit, counted from here
         try:
             v = h.fn(ctx, **params)
             if measure and tracemalloc.get_traced_memory()[1] > V.ALLOC_CAP:
@@ -411,6 +412,10 @@ def run_native(h: Harness, params, inputs, step_limit=None, measure=False):
                 return NativeOutcome("budget", f"peak allocation {tracemalloc.get_traced_memory()[1]} bytes", None, ctx.reached, ctx.steps)
             return NativeOutcome("raise", e, None, ctx.reached, ctx.steps)
     finally:
+        try:
+            sys.setrecursionlimit(old_limit)
+        except Exception:
+            pass
         if use_alarm:
             signal.setitimer(signal.ITIMER_REAL, 0)
             signal.signal(signal.SIGALRM, old_handler)
